@@ -380,8 +380,20 @@ impl Model {
             };
             return diverge(clause, format!("library raised {:?}, model expects {:?}", obs.events, want_events).chars().take(400).collect());
         }
-        // commands, media, ping tags: exact, in order; other output tolerated
-        let relevant: Vec<&Tag> = obs.tags.iter().filter(|t| !matches!(t, Tag::Other(_))).collect();
+        // commands of the workflow, media, ping tags: exactly the expected ones, in order; other
+        // output (control messages, and commands the statement does not mention such as
+        // releaseStream / FCPublish that real clients send) is tolerated
+        let workflow = ["connect", "createStream", "play", "publish", "deleteStream"];
+        let relevant: Vec<&Tag> = obs
+            .tags
+            .iter()
+            .filter(|t| match t {
+                Tag::Other(_) => false,
+                Tag::Command { name, .. } => workflow.contains(&name.as_str()),
+                Tag::SetBufferLength { .. } => want_tags.iter().any(|w| matches!(w, Tag::SetBufferLength { .. })),
+                _ => true,
+            })
+            .collect();
         let want: Vec<&Tag> = want_tags.iter().collect();
         if relevant != want {
             let clause = match (op, want.first()) {
